@@ -21,7 +21,7 @@ def names_nonempty(prog):
     flc = A.Conds(fl, flr)
     ok = True
     for b, i, st in A.aggregates(fl, DN):
-        g, _ = flc.guarded(b, lambda fc: fc[0] == "call" and fc[1].endswith("Vec::<T, A>::is_empty") and fc[3] is False and A.peel(fc[2][0]) == ("param", 1))
+        g, _ = flc.guarded(b, lambda fc: fc[0] == "call" and A.is_empty_name(fc[1]) and fc[3] is False and A.peel(fc[2][0]) == ("param", 1))
         ok = ok and g
     return ok and DN + "::from_labels" in sites and DN + "::root_domain" in sites and len(sites) <= 4
 
@@ -127,7 +127,9 @@ def run(ctx):
     for header, body in pe.loops():
         backs = [(b, header) for b in body if header in pe.succs(b)]
         for a, s in backs:
-            g1, _ = pec.guarded(a, lambda fc: fc[0] == "call" and fc[1].endswith("Vec::<T, A>::is_empty") and fc[3] is True)
+            # "no tokens": Vec::is_empty / <[T]>::is_empty (what `first()` is None normalises to) on the tokenise_entry result
+            g1, _ = pec.guarded(a, lambda fc: fc[0] == "call" and fc[1].endswith("::is_empty") and fc[3] is True
+                                and any(x[0] == "call" and "tokenise_entry" in x[1] for x in A.walk(fc[2][0])))
             g2, _ = pec.guarded(a, lambda fc: fc[0] == "call" and fc[1].endswith("is_none") and fc[3] is False)
             ctx.check(g1 and g2, "C17.2", "parse_entry:repeat-only-on-blank", "parse_entry loops only past an empty entry with input remaining",
                       "parse_entry can loop without the stream having been consumed", pe.loc(a))
@@ -170,21 +172,27 @@ def run(ctx):
             continue
         r = A.Resolver(g)
         e = r.call_expr(t, b)
-        sl = A.peel(e[2][1])
-        ok = sl[0] == "call" and sl[1].endswith("::index") and A.peel(sl[2][0]) == ("param", 2)
-        rng = A.peel(sl[2][1]) if ok else None
-        ok = ok and rng[0] == "agg" and rng[1] == "std::ops::Range" and A.peel(dict(rng[3])["start"])[2] == 0
+        # the argument is a sub-slice relative_domain[s .. e] with e - s <= len - 1, whichever range type spells it
+        # (split_last / split_first are expanded to this form by the normal-form pass)
+        ss = A.subslice(e[2][1])
+        ok = ss is not None and A.peel(ss[0]) == ("param", 2)
         if ok:
-            end = P.lin(dict(rng[3])["end"])
-            ok = end == ({"len(param2)": 1}, -1)
-        if not ok:
-            # `let Some((last, rest)) = relative_domain.split_last()` / split_first(): `rest` has one element fewer
-            x = sl
-            if x[0] == "field" and x[2] == "1":
-                y = A.peel(x[1])
-                if y[0] == "field" and y[2] == "0" and y[1][0] == "downcast" and y[1][2] == "Some":
-                    c = A.peel(y[1][1])
-                    ok = c[0] == "call" and (c[1].endswith("<impl [T]>::split_last") or c[1].endswith("<impl [T]>::split_first")) and A.peel(c[2][0]) == ("param", 2)
+            fields = {k: v for k, v in (("start", ss[1]), ("end", ss[2])) if v is not None}
+            whole = ({"len(param2)": 1}, 0)
+            start = P.lin(fields["start"]) if "start" in fields else ({}, 0)
+            end = P.lin(fields["end"]) if "end" in fields else whole
+            ok = start is not None and end is not None
+            if ok:
+                # (len - 1) - (end - start) >= 0 identically
+                coef = {"len(param2)": 1}
+                const = -1
+                for k, v in end[0].items():
+                    coef[k] = coef.get(k, 0) - v
+                const -= end[1]
+                for k, v in start[0].items():
+                    coef[k] = coef.get(k, 0) + v
+                const += start[1]
+                ok = all(v == 0 for v in coef.values()) and const >= 0
         ctx.check(ok, "C17.3", "%s:measure@%s" % (A.short(g.key), g.loc(b).split(":")[-1]), "recursive call on relative_domain[0 .. len-1] (strictly shorter)",
                   "recursive call argument is %s" % A.show(e[2][1])[:100], g.loc(b))
 
